@@ -13,7 +13,12 @@ SYSTEM = {
     'P31': 'hex', 'P-3': 'hex', 'R-3': 'hex', 'R3c': 'hex', 'P-31c': 'hex', 'P63/m': 'hex', 'P61': 'hex',
     'P213': 'cubic', 'Pa-3': 'cubic', 'F23': 'cubic',
 }
-ELEMENTS = ['C', 'N', 'O', 'H', 'Cl', 'S']
+ELEMENTS = ['C', 'N', 'O', 'H', 'Cl', 'S', 'I', 'Cs', 'Br', 'K']
+
+
+def radius(el):
+    from shelxfile.misc.elements import get_radius_from_element
+    return get_radius_from_element(el)
 
 
 def gen_cell(rng, system):
@@ -85,19 +90,21 @@ def gen_structure(rng, name=None, natoms=None):
         mol = [seed]
         size = max(1, (natoms - len(atoms)) if nmol <= 1 else rng.randint(1, max(1, natoms - len(atoms))))
         nmol -= 1
-        for _ in range(size - 1):
-            base = mv(M, rng.choice(mol))
+        els = [rng.choice(ELEMENTS) if rng.random() < 0.7 else rng.choice(['I', 'Cs', 'Br', 'K']) for _ in range(size)]
+        for j in range(size - 1):
+            bi = rng.randrange(len(mol))
+            base = mv(M, mol[bi])
             while True:
                 v = [rng.gauss(0, 1) for _ in range(3)]
                 ln = math.sqrt(sum(x * x for x in v))
                 if ln > 0.2:
                     break
-            r = rng.uniform(0.95, 1.75)
+            # contact length relative to the bonding limit 1.2 (r1 + r2): mostly bonded, some just beyond
+            r = rng.uniform(0.5, 1.1) * 1.2 * (radius(els[bi]) + radius(els[j + 1]))
             mol.append(mv(Mi, [base[k] + v[k] / ln * r for k in range(3)]))
-        for p in mol:
+        for p, el in zip(mol, els):
             if rng.random() < 0.15:
                 part = rng.choice([0, 1, 2, -1, 0])
-            el = rng.choice(ELEMENTS)
             atoms.append({'el': el, 'xyz': [round(x, 5) for x in p], 'part': part})
     for i, a in enumerate(atoms):
         a['name'] = '%s%d' % (a['el'], i + 1)
